@@ -1461,6 +1461,11 @@ class ModelBuilder:
                     leave_type = value.get("type", "annual")
                     start_date = value.get("start")
                     end_date = value.get("end", start_date)
+                    # A single date means that whole day (as for global vacations)
+                    if start_date and (end_date is None or end_date == start_date):
+                        from datetime import timedelta
+
+                        end_date = start_date + timedelta(days=1)
 
                     if start_date and end_date:
                         interval = TimeInterval(start_date, end_date)
@@ -1532,6 +1537,11 @@ class ModelBuilder:
 
                     start_date = value.get("start")
                     end_date = value.get("end", start_date)
+                    # A single date means that whole day (as for global vacations)
+                    if start_date and (end_date is None or end_date == start_date):
+                        from datetime import timedelta
+
+                        end_date = start_date + timedelta(days=1)
 
                     if start_date and end_date:
                         interval = TimeInterval(start_date, end_date)
